@@ -286,3 +286,96 @@ Proof.
     pose proof (zlen_encode_stab (c_le c) s Hs) as Hl. unfold zlen in Hl. specialize (IH Hss). lia. }
   rewrite !app_length. lia.
 Qed.
+
+(* ================================================================== the other header fields are free *)
+(* what the decoded headers say about the extent *)
+Lemma shdr_offset_size le is64 h :
+  rec_z (annot_layout (spec_Elf_Shdr le is64) (shdr_vals h)) "sh_offset" = sh_offset h /\
+  rec_z (annot_layout (spec_Elf_Shdr le is64) (shdr_vals h)) "sh_size" = sh_size h /\
+  rec_z (annot_layout (spec_Elf_Shdr le is64) (shdr_vals h)) "sh_entsize" = sh_entsize h.
+Proof. destruct le, is64; repeat split; reflexivity. Qed.
+
+Lemma phdr_offset_size le is64 p :
+  rec_z (annot_layout (spec_Elf_Phdr le is64) (phdr_vals is64 p)) "p_offset" = p_offset p /\
+  rec_z (annot_layout (spec_Elf_Phdr le is64) (phdr_vals is64 p)) "p_filesz" = p_filesz p.
+Proof. destruct le, is64; split; reflexivity. Qed.
+
+Lemma section_header_at_ok c img (A R : list Z) h :
+  wf_shdr (c_le c) (c_is64 c) h = true -> img = A ++ encode_shdr (c_le c) (c_is64 c) h ++ R ->
+  section_header_at c img (zlen A) = Ok (annot_layout (spec_Elf_Shdr (c_le c) (c_is64 c)) (shdr_vals h)).
+Proof.
+  intros Hf Hi. unfold section_header_at. rewrite gen_Elf_Shdr_gabi.
+  exact (struct_parse_at_ok _ _ img A R (zlen A) Hf Hi eq_refl).
+Qed.
+
+Lemma segment_header_at_ok c img (A R : list Z) p :
+  wf_phdr (c_le c) (c_is64 c) p = true -> img = A ++ encode_phdr (c_le c) (c_is64 c) p ++ R ->
+  segment_header_at c img (zlen A) = Ok (annot_layout (spec_Elf_Phdr (c_le c) (c_is64 c)) (phdr_vals (c_is64 c) p)).
+Proof.
+  intros Hf Hi. unfold segment_header_at. rewrite gen_Elf_Phdr_gabi.
+  exact (struct_parse_at_ok _ _ img A R (zlen A) Hf Hi eq_refl).
+Qed.
+
+(* two section headers that locate the same bytes enumerate the same stabs, on every image:
+   sh_entsize, sh_link, sh_info, sh_addralign, sh_flags, sh_addr, ... do not matter *)
+Theorem stabs_header_free c img sh sh' :
+  rec_z sh "sh_offset" = rec_z sh' "sh_offset" -> rec_z sh "sh_size" = rec_z sh' "sh_size" ->
+  StabSection_iter_stabs c img sh = StabSection_iter_stabs c img sh'.
+Proof. intros H1 H2. unfold StabSection_iter_stabs. rewrite H1, H2. reflexivity. Qed.
+
+(* in particular: overriding sh_entsize (or any field other than sh_offset / sh_size) with any value *)
+Theorem stabs_field_irrelevant c img sh f v :
+  f <> "sh_offset" -> f <> "sh_size" ->
+  StabSection_iter_stabs c img ((f, v) :: sh) = StabSection_iter_stabs c img sh.
+Proof.
+  intros H1 H2. apply stabs_header_free; unfold rec_z; cbn [rec_get].
+  - destruct (String.eqb_spec f "sh_offset") as [E|_]; [contradiction|reflexivity].
+  - destruct (String.eqb_spec f "sh_size") as [E|_]; [contradiction|reflexivity].
+Qed.
+
+Theorem notes_header_free c img sh sh' ph ph' :
+  rec_z sh "sh_offset" = rec_z sh' "sh_offset" -> rec_z sh "sh_size" = rec_z sh' "sh_size" ->
+  rec_z ph "p_offset" = rec_z ph' "p_offset" -> rec_z ph "p_filesz" = rec_z ph' "p_filesz" ->
+  NoteSection_iter_notes c img sh = NoteSection_iter_notes c img sh' /\
+  NoteSegment_iter_notes c img ph = NoteSegment_iter_notes c img ph'.
+Proof.
+  intros H1 H2 H3 H4. unfold NoteSection_iter_notes, NoteSegment_iter_notes.
+  rewrite H1, H2, H3, H4. split; reflexivity.
+Qed.
+
+(* file level, every header field a parameter: the image holds the encoded records at [pre] and
+   a section header [h] (any sh_name, sh_type, sh_flags, sh_addr, sh_link, sh_info, sh_addralign,
+   sh_entsize that fit their fields) anywhere *)
+Theorem stabs_file_exact c ss (pre tail A R : list Z) h img :
+  forallb (wf_stab (c_le c)) ss = true -> wf_shdr (c_le c) (c_is64 c) h = true ->
+  sh_offset h = zlen pre -> sh_size h = zlen (encode_stabs (c_le c) ss) ->
+  img = pre ++ encode_stabs (c_le c) ss ++ tail ->
+  img = A ++ encode_shdr (c_le c) (c_is64 c) h ++ R ->
+  section_stabs_at c img (zlen A) = Ok (expected_stabs (c_le c) (zlen pre) ss, None).
+Proof.
+  intros Hwf Hh Ho Hs Hi Hi'. unfold section_stabs_at.
+  rewrite (section_header_at_ok c img A R h Hh Hi'). cbn [bind].
+  destruct (shdr_offset_size (c_le c) (c_is64 c) h) as [E1 [E2 _]].
+  rewrite Hi. f_equal. apply stabs_exact; [exact Hwf | rewrite E1; exact Ho | rewrite E2; exact Hs].
+Qed.
+
+(* the same for notes: section header and program header with every other field free *)
+Theorem notes_file_exact c ns (pre tail A R A' R' : list Z) h p img :
+  wf_cfg c = true -> wf_notes (scfg_of c) ns = true ->
+  wf_shdr (c_le c) (c_is64 c) h = true -> wf_phdr (c_le c) (c_is64 c) p = true ->
+  sh_offset h = zlen pre -> sh_size h = zlen (encode_notes (scfg_of c) ns) ->
+  p_offset p = zlen pre -> p_filesz p = zlen (encode_notes (scfg_of c) ns) ->
+  img = pre ++ encode_notes (scfg_of c) ns ++ tail ->
+  img = A ++ encode_shdr (c_le c) (c_is64 c) h ++ R ->
+  img = A' ++ encode_phdr (c_le c) (c_is64 c) p ++ R' ->
+  section_notes_at c img (zlen A) = Ok (expected_notes (scfg_of c) (zlen pre) ns, None) /\
+  segment_notes_at c img (zlen A') = Ok (expected_notes (scfg_of c) (zlen pre) ns, None).
+Proof.
+  intros Hc Hwf Hh Hp Ho Hs Hpo Hps Hi Hi1 Hi2.
+  pose proof (section_header_at_ok c img A R h Hh Hi1) as Hsh.
+  pose proof (segment_header_at_ok c img A' R' p Hp Hi2) as Hph.
+  destruct (shdr_offset_size (c_le c) (c_is64 c) h) as [E1 [E2 _]].
+  destruct (phdr_offset_size (c_le c) (c_is64 c) p) as [E3 E4].
+  rewrite Hi in Hsh, Hph. rewrite Hi.
+  apply (views_exact c ns pre tail (zlen A) (zlen A') _ _ Hc Hwf Hsh Hph); congruence.
+Qed.
